@@ -6,20 +6,27 @@ Engine E2 (small-scope enumeration + boring reference model) on the REAL `t2_sem
 
 Enumerated
   memories   every multiset of <=N episodes over 14 prototypes (owner {A,B,world}; age {1d, 30d (window
-             boundary), 31d, no timestamp}; cluster {c1,c2,none}; importance {absent,0,.5,1,7};
+             boundary), 30d6h (a quarter of a day past the boundary: the window is a set of INSTANTS, not of
+             whole days), 31d, no timestamp}; cluster {c1,c2,none}; importance {absent,0,.5,1,7};
              vector {e1, e2, e1+e2, 0, -e1}; duplicates of one prototype = bit-identical vectors), ids
              handed out in REVERSE insertion order (so an id tie-break differs from insertion order);
+  degenerate every such memory of <=N-1 episodes plus ONE episode whose stored vector has a non-finite
+  vectors    component (NaN, +inf, -inf: 3 more prototypes) - the similarity of such an episode is undefined,
+             like the zero vector it is a value a float32 store can hold;
   queries    "apple" (-> e1) and "apple pear" (-> e1+e2) through the injected TokenEncoder (ctx.enc);
   settings   every assignment with <=D deviations from the default over the dimensions in DIMS (k, threshold,
              tier list = every ordered non-empty subset, recency window, clusters_top_m, ranking weights,
              owner scope x agent, residual cap, slice cap, hybrid rerank x GEL edge set, fusion / MMR).
   quick:    N=3 with D<=1 and N=2 with D<=2;   thorough: N=3 with D<=2 and N=4 with D<=1.
+            degenerate-vector leg: quick 2+1 episodes with D<=1 (degenerate episode inserted first);
+            thorough 2+1 with D<=1 and 1+1 with D<=2 (degenerate episode inserted first and last).
 
 Oracle (from the property statement and the documented behaviour: docs/m9 "tier-ordered walk / stable
 sort (-score,id) / de-duplicate / clamp k once", the ranking law alpha*cos' + beta*recency +
 gamma*importance with (-score,id), "use-only" slice clamp):
   * envelope: no exception; ids distinct, members of the memory, <= k; every hit visible under the scope;
-    cosine >= threshold; every hit admitted by at least one configured tier (exact: timestamped episodes
+    cosine >= threshold (an undefined cosine meets no threshold; tolerated only where the vector with NaN -> 0
+    and +-inf -> the limit direction would meet it); every hit admitted by at least one configured tier (exact: timestamped episodes
     inside the inclusive window; cluster: member of a cluster that can be among the top m; archive: any);
   * reference model of the tier walk (per tier rank by (-cos,id), take k, de-duplicate, stop at k) gives the
     id SET; where the statement is silent the model yields several acceptable sets (episode without
@@ -37,6 +44,7 @@ from __future__ import annotations
 import itertools
 import math
 import types
+import warnings
 import datetime as _dt
 
 import numpy as np
@@ -79,6 +87,13 @@ _DT_PROXY = types.SimpleNamespace(datetime=_FixedDateTime, timedelta=_dt.timedel
                                   date=_dt.date, time=_dt.time)
 
 
+def _quiet_numpy():
+    """numpy announces every NaN it produces from a degenerate stored vector (RuntimeWarning on stderr, once per
+    forked worker); the warning is not part of the observation"""
+    warnings.filterwarnings("ignore", message="invalid value encountered", category=RuntimeWarning)
+    warnings.filterwarnings("ignore", message="overflow encountered", category=RuntimeWarning)
+
+
 def _pin_clock():
     index_mod.dt = _DT_PROXY
     t2helpers.dt = _DT_PROXY
@@ -92,24 +107,36 @@ E2 = (0, 1, 0, 0, 0)
 E12 = (1, 1, 0, 0, 0)
 Z = (0, 0, 0, 0, 0)
 NE1 = (-1, 0, 0, 0, 0)
+# degenerate stored vectors: components written as strings so that every case stays plain JSON
+VNAN = ("nan", 0, 0, 0, 0)
+VINF = ("inf", 0, 0, 0, 0)
+VMINF = (0, "-inf", 0, 0, 0)
 
 # owner, age in days (None = no timestamp), cluster, importance (None = absent), vector, text
 PROTOS = [
     ("A", 1, "c1", None, E1, "apple"),
     ("A", 1, "c1", 0.0, E12, "apple pear"),
     ("A", 30, "c2", 1.0, E2, "Pear tart"),
-    ("A", 31, None, 7.0, E1, "apple fig"),
+    ("A", 30.25, None, 7.0, E1, "apple fig"),
     ("A", None, "c1", 0.5, E12, "fig and pear"),
     ("B", 1, "c1", 1.0, E1, "apple"),
     ("B", 31, "c2", 0.0, E2, "pear"),
     ("B", None, None, 0.5, NE1, "no apple"),
     ("world", 1, "c2", 0.5, E1, "apple plum"),
-    ("world", 31, "c1", 1.0, E12, "apple pear"),
+    ("world", 30.25, "c1", 1.0, E12, "apple pear"),
     ("A", 1, "c2", 0.5, Z, ""),
     ("A", 31, "c2", 0.0, NE1, "zzz"),
     ("world", None, None, 0.0, E2, "pear"),
     ("B", 30, "c1", 7.0, E12, "apple pear fig"),
 ]
+# prototypes of the degenerate-vector leg (at most one of them per memory)
+PROTOS_X = [
+    ("A", 1, "c1", 0.5, VNAN, "apple"),
+    ("A", 30, None, None, VINF, "pear fig"),
+    ("world", None, "c2", 1.0, VMINF, "apple plum"),
+]
+ALL_PROTOS = PROTOS + PROTOS_X
+X_INDEX = list(range(len(PROTOS), len(ALL_PROTOS)))
 QUERIES = ["apple", "apple pear"]
 QVEC = {"apple": E1, "apple pear": E12}
 
@@ -251,23 +278,28 @@ _VEC = {v: np.asarray(v, dtype=np.float32) for v in (E1, E2, E12, Z, NE1)}
 
 
 def episodes_of(mem):
-    """mem = tuple of prototype indices (sorted); ids in reverse insertion order"""
+    """mem = tuple of prototype indices (insertion order); ids in reverse insertion order"""
     n = len(mem)
     out = []
     for pos, pi in enumerate(mem):
-        owner, age, cluster, imp, vec, text = PROTOS[pi]
+        owner, age, cluster, imp, vec, text = ALL_PROTOS[pi]
         out.append({"id": "e%d" % (n - pos), "owner": owner, "age": age, "cluster": cluster, "imp": imp,
                     "vec": list(vec), "text": text})
     return out
 
 
+def _vecf(v):
+    return [float(x) for x in v]
+
+
 def _iso(age):
     """the same instant, written in a zone that depends on the age class: timestamps are ISO 8601 with an offset, and the
-    recency window is defined on instants (30 d = window boundary is written in -05:00, 1 d in +09:00, the rest in Z)"""
+    recency window is defined on instants (30 d = window boundary is written in -05:00, 1 d and the sub-day ages in
+    +09:00 - there the local calendar day differs from the UTC one -, the rest in Z)"""
     t = NOW - _dt.timedelta(days=age)
     if age == 30:
         return t.astimezone(_dt.timezone(_dt.timedelta(hours=-5))).isoformat()
-    if age == 1:
+    if age == 1 or age != int(age):
         return t.astimezone(_dt.timezone(_dt.timedelta(hours=9))).isoformat()
     return t.isoformat().replace("+00:00", "Z")
 
@@ -278,7 +310,7 @@ def build_state(eps, hybrid):
     idx = InMemoryIndex()
     for e in eps:
         d = {"id": e["id"], "owner": e["owner"], "text": e["text"],
-             "vec_full": np.array(e["vec"], dtype=np.float32)}
+             "vec_full": np.array(_vecf(e["vec"]), dtype=np.float32)}
         if e["age"] is not None:
             d["ts"] = _iso(e["age"])
         aux = {}
@@ -348,6 +380,19 @@ def cosine(a, b):
     return sum(x * y for x, y in zip(a, b)) / (na * nb)
 
 
+def undefined_vec(v):
+    """the similarity of a stored vector with a NaN / infinite component is not defined"""
+    return any(not math.isfinite(float(x)) for x in v)
+
+
+def sanitised(v):
+    """the most benevolent reading of a degenerate vector: NaN -> 0; with an infinite component the limit direction"""
+    f = _vecf(v)
+    if any(math.isinf(x) for x in f):
+        return [(1.0 if x > 0 else -1.0) if math.isinf(x) else 0.0 for x in f]
+    return [0.0 if math.isnan(x) else x for x in f]
+
+
 def scope_owner(s):
     sc, agent = s["scope"]
     if sc == "agent":
@@ -373,11 +418,20 @@ def _cluster_key(e):
     return e["cluster"] if e["cluster"] else ("single", e["id"])
 
 
-def cluster_choices(vis, qv, m):
+def cluster_choices(vis, qv, m, undef=frozenset()):
     """returns (list of acceptable chosen-cluster sets, set of clusters that can be chosen at all)"""
     by = {}
     for e in vis:
         by.setdefault(_cluster_key(e), []).append(e)
+    if any(e["id"] in undef for e in vis):
+        # a visible episode without a defined similarity: the centroid of its cluster is undefined as well, and the
+        # statement does not say where such a cluster ranks (nor whether it takes one of the m places) -> any choice
+        # of at most m clusters is accepted
+        if m <= 0:
+            return [frozenset()], set()
+        top = min(m, len(by))
+        outs = [frozenset(c) for r in range(0, top + 1) for c in itertools.combinations(sorted(by, key=str), r)]
+        return outs, set(by)
     sc = {}
     for c, items in by.items():
         n = len(items)
@@ -404,9 +458,11 @@ def in_window(e, rd, nots_in, rd0_off):
     return e["age"] <= rd
 
 
-def walk(vis, cos, s, nots_in, rd0_off, chosen, hyp=None):
+def walk(vis, cos, s, nots_in, rd0_off, chosen, hyp=None, undef=frozenset(), undef_in=False):
     k, thr = s["k"], s["thr"]
     out, seen = [], set()
+    if undef and not undef_in:
+        vis = [e for e in vis if e["id"] not in undef]
     rd = s["rd"] - 1 if (hyp == "window-exclusive" and s["rd"] > 0) else s["rd"]
     for t in s["tiers"]:
         if t == "E":
@@ -436,22 +492,26 @@ def reference(eps, q, s, hyp=None):
     qv = QVEC[q]
     owner = scope_owner(s)
     vis = [e for e in eps if owner is None or e["owner"] == owner]
-    cos = {e["id"]: cosine(qv, e["vec"]) for e in eps}
+    undef = frozenset(e["id"] for e in eps if undefined_vec(e["vec"]))
+    # for an episode in `undef` this is the cosine of the sanitised vector (used only to bound what is tolerated)
+    cos = {e["id"]: cosine(qv, sanitised(e["vec"]) if e["id"] in undef else e["vec"]) for e in eps}
+    und_opts = [False, True] if any(e["id"] in undef for e in vis) else [False]
     has_e, has_c = "E" in s["tiers"], "C" in s["tiers"]
     nots_opts = [True, False] if (has_e and any(e["age"] is None for e in vis)) else [True]
     rd0_opts = [True, False] if (has_e and s["rd"] == 0) else [True]
     if has_c:
-        combos, can = cluster_choices(vis, qv, s["tm"])
+        combos, can = cluster_choices(vis, qv, s["tm"], undef)
     else:
         combos, can = [frozenset()], set()
     sets = []
     for ni in nots_opts:
         for r0 in rd0_opts:
             for ch in combos:
-                ids = frozenset(walk(vis, cos, s, ni, r0, ch, hyp))
-                if ids not in sets:
-                    sets.append(ids)
-    return {"vis": vis, "cos": cos, "sets": sets, "cluster_can": can}
+                for ui in und_opts:
+                    ids = frozenset(walk(vis, cos, s, ni, r0, ch, hyp, undef, ui))
+                    if ids not in sets:
+                        sets.append(ids)
+    return {"vis": vis, "cos": cos, "sets": sets, "cluster_can": can, "undef": undef}
 
 
 # ------------------------------------------------------------------ oracle
@@ -500,6 +560,7 @@ def check(eps, q, s, getres, info=None):
     ref = reference(eps, q, s)
     by_id = {e["id"]: e for e in eps}
     cos = ref["cos"]
+    undef = ref["undef"]
     owner = scope_owner(s)
     k, thr = s["k"], s["thr"]
     rerank_on = s["hybrid"] is not None or s["quality"] is not None
@@ -518,10 +579,17 @@ def check(eps, q, s, getres, info=None):
         out.append(("scope:%s:foreign-owner" % s["scope"][0],
                     "hits %s belong to %s but scope=%s agent=%s admits only owner %r; %s" % (
                         foreign, [by_id[i]["owner"] for i in foreign], s["scope"][0], s["scope"][1], owner, where)))
-    below = [i for i in ids if cos[i] < thr - 1e-6]
+    below = [i for i in ids if i not in undef and not (cos[i] >= thr - 1e-6)]
     if below:
         out.append(("threshold:below", "hits %s have cosine %s < sim_threshold %s; %s" % (
             below, [round(cos[i], 6) for i in below], thr, where)))
+    no_sim = [i for i in ids if i in undef and not (cos[i] >= thr - 1e-6)]
+    if no_sim:
+        out.append(("threshold:undefined-similarity",
+                    "hits %s have stored vectors %s with a non-finite component: their cosine with the query is undefined "
+                    "and meets no threshold (even with NaN read as 0 / inf as the limit direction it would be %s < "
+                    "sim_threshold %s); %s" % (no_sim, [by_id[i]["vec"] for i in no_sim],
+                                               [round(cos[i], 6) for i in no_sim], thr, where)))
     # tier admission (window clause asserted for timestamped episodes only)
     not_adm = []
     for i in ids:
@@ -570,6 +638,8 @@ def check(eps, q, s, getres, info=None):
         for a in range(len(ids)):
             for b in range(a + 1, len(ids)):
                 ia, ib = ids[a], ids[b]
+                if ia in undef or ib in undef:
+                    continue  # no defined score, no defined place
                 if tot[ib] > tot[ia] + TOL:
                     out.append(("order:score", "%s (score %.6f) is ranked before %s (score %.6f); %s" % (
                         ia, tot[ia], ib, tot[ib], where)))
@@ -633,6 +703,11 @@ def check(eps, q, s, getres, info=None):
         info["res_cut"] = len(res_ids) >= s["rescap"] and len(res_ids) > 0
         info["thr_boundary"] = any(abs(cos[i] - thr) <= TOL for i in ids)
         info["win_boundary"] = "E" in s["tiers"] and any(by_id[i]["age"] == s["rd"] for i in ids)
+        info["win_subday"] = ("E" in s["tiers"] and s["rd"] > 0 and
+                              any(e["age"] is not None and s["rd"] < e["age"] < s["rd"] + 1 and e["id"] not in got
+                                  and e["id"] not in undef and cos[e["id"]] >= thr - TOL for e in ref["vis"]))
+        info["undef_excl"] = any(e["id"] in undef and e["id"] not in got for e in ref["vis"])
+        info["undef_in"] = any(i in undef for i in ids)
     return out
 
 
@@ -644,11 +719,17 @@ def memories(max_n):
     return out
 
 
-def _worker(chunk, st: Stats, plan):
-    """chunk: list of (mem tuple, maxdev)"""
+ALL_VARIANTS = ("parallel", "warm-cache")
+
+
+def _worker(chunk, st: Stats, plan, xvariants):
+    """chunk: list of (mem tuple, maxdev); xvariants: the other execution paths tried for memories of the
+    degenerate-vector leg (ordinary memories: all of ALL_VARIANTS)"""
+    _quiet_numpy()
     setts = {d: list(settings(d)) for d in sorted({d for _, d in chunk})}
     for mem, maxdev in chunk:
         eps = episodes_of(mem)
+        variants = xvariants if any(pi in X_INDEX for pi in mem) else ALL_VARIANTS
         for q in QUERIES:
             memo = {}
 
@@ -667,10 +748,10 @@ def _worker(chunk, st: Stats, plan):
                 res = check(eps, q, s, getres, info)
                 st.add("validated")
                 case = {"episodes": eps, "query": q, "setting": s_json(s)}
-                if not res and n_dev(s) <= 1 and len(eps) >= 1:
+                if not res and n_dev(s) <= 1 and len(eps) >= 1 and variants:
                     # the same input through the other execution paths of the stage must give the same answer
                     plain = getres(s)
-                    for variant in ("parallel", "warm-cache"):
+                    for variant in variants:
                         if variant == "parallel" and len(eps) < 2:
                             continue
                         got = execute(eps, q, s, variant)
@@ -680,7 +761,7 @@ def _worker(chunk, st: Stats, plan):
                             res.append(("variant:%s:differs-from-plain:scope=%s" % (variant, s["scope"][0]),
                                         "t2_semantic via %s path returned %s, plain sequential cache-off path %s; mem=%s q=%r setting{%s}" % (
                                             variant, W.jd(got), W.jd(plain), _fmt_eps(eps), q, _fmt_s(s))))
-                    case["variants"] = True
+                    case["variants"] = list(variants)
                 for sig, what in res:
                     st.violation(sig, what, case)
                 if res:
@@ -694,7 +775,7 @@ def _worker(chunk, st: Stats, plan):
                     if (info["n_ret"] >= 2) or (len(eps) > info["n_ret"] and len(eps) > 0):
                         st.add("nontrivial")
                     for kname in ("k_cut", "tier_excl", "tie", "ambiguous", "reordered", "slice_cut", "res_cut",
-                                  "thr_boundary", "win_boundary"):
+                                  "thr_boundary", "win_boundary", "win_subday", "undef_excl", "undef_in"):
                         if info.get(kname):
                             st.add("clause_" + kname)
                     if info.get("scope_excl"):
@@ -736,31 +817,61 @@ def run(run: Run) -> None:
     for n, d in plan:
         for mem in memories(n):
             budget[mem] = max(budget.get(mem, 0), d)
+    # degenerate-vector leg: one episode with a non-finite vector + every ordinary memory of the given size
+    if run.thorough:
+        xplan = [(2, 1, ("first", "last")), (1, 2, ("first", "last"))]
+    else:
+        xplan = [(2, 1, ("first",))]
+    n_x = 0
+    for n, d, places in xplan:
+        for base in memories(n):
+            for x in X_INDEX:
+                for place in places:
+                    mem = ((x,) + base) if place == "first" else (base + (x,))
+                    if budget.get(mem, 0) < d:
+                        n_x += mem not in budget
+                        budget[mem] = d
     for mem in sorted(budget, key=lambda m: (len(m), m)):
         items.append((mem, budget[mem]))
     # heavy items first for balance
     items.sort(key=lambda it: (-it[1], -len(it[0]), it[0]))
     run.notes["memories"] = len(items)
+    run.notes["memories_with_degenerate_vector"] = n_x
+    run.notes["xplan"] = ["%d ordinary + 1 degenerate (%s) x deviations<=%d" % (n, "/".join(pl), d) for n, d, pl in xplan]
     run.notes["settings_le1"] = len(list(settings(1)))
     run.notes["settings_le2"] = len(list(settings(2)))
     run.notes["plan"] = ["memories<=%d x deviations<=%d" % (n, d) for n, d in plan]
-    run.pmap(_worker, items, extra=(plan,), chunks=min(len(items), 16 * 12))
+    xvariants = ("parallel",) if run.thorough else ()
+    run.notes["xplan_variants"] = list(xvariants)
+    run.pmap(_worker, items, extra=(plan, xvariants), chunks=min(len(items), 16 * 12))
     if W.jd({repr(k): v for k, v in _CFG.items()}) != cfg_digest0:
         raise HarnessError("a shared config object was mutated during the run")
-    run.rule = ("every multiset of <=N episodes over %d prototypes x 2 queries x every setting with <=D deviations over "
-                "%d dimensions (%s); plan %s; states = (memory, query, setting) inputs, transitions = executions of the "
+    run.rule = ("every multiset of <=N episodes over %d prototypes (ages 1 d, 30 d = window boundary, 30 d 6 h = sub-day "
+                "past the boundary, 31 d, none) x 2 queries x every setting with <=D deviations over "
+                "%d dimensions (%s); plan %s; plus the degenerate-vector leg: one of %d episodes whose stored vector has a "
+                "NaN / +inf / -inf component together with every ordinary memory, plan %s; states = (memory, query, "
+                "setting) inputs, transitions = executions of the "
                 "real t2_semantic, validated = outcomes compared with the reference model + envelope; non-trivial = "
                 ">=2 hits returned or >=1 stored episode not returned"
-                % (len(PROTOS), len(DIMS), ", ".join("%s:%d" % (d, len(v)) for d, v in DIMS), run.notes["plan"]))
+                % (len(PROTOS), len(DIMS), ", ".join("%s:%d" % (d, len(v)) for d, v in DIMS), run.notes["plan"],
+                   len(PROTOS_X), run.notes["xplan"]))
     run.assume("the reference model is compared on the sequential, cache-off path; for every input with <=1 deviation the "
                "parallel shard path (2 workers) and the cache-on path after the same query by another agent must return the "
-               "same observation as that path (full exploration of those paths is C09's and C05's); embed-store reader and "
-               "LanceDB backend are outside this check")
+               "same observation as that path (full exploration of those paths is C09's and C05's; memories of the "
+               "degenerate-vector leg: %s); embed-store reader and LanceDB backend are outside this check"
+               % ("parallel path only" if xvariants else "sequential path only in this tier"))
     run.assume("a zero vector has cosine 0 with every query (the index's convention); cosines of the alphabet are "
                "exactly -1, -0.7071, 0, 0.7071 or 1, thresholds hit only the exact values -1 and 0")
     run.assume("episode without timestamp: inside or outside the exact-tier window are both accepted (the statement is "
                "silent, the tree answers with the wall clock - C01); datetime.now inside clematis.memory.index is pinned "
                "to the logical now; in the ranking law its recency term is 0 ('unknown = old')")
+    run.assume("the logical now is a UTC midnight, so the rolling window (now - N days, docs/m3) and a window counted in UTC "
+               "calendar days coincide; episode ages inside one day past the boundary (30 d 6 h) must be outside either way")
+    run.assume("a stored vector with a NaN / infinite component has no defined cosine: the episode meets no threshold and "
+               "is expected to be left out; returning it is tolerated only where the vector read with NaN = 0 / +-inf = "
+               "limit direction meets the threshold; it takes part in no order assertion, and with such an episode "
+               "visible any choice of <= m clusters is accepted for the cluster tier (its centroid is undefined); finite "
+               "vectors that overflow float32 when normalised are outside the alphabet")
     run.assume("exact_recent_days=0 is accepted as 'window off' or as 'age<=0 only'; ties between cluster centroids at "
                "the top-m cut may be resolved either way; the tie-break among clusters is not part of the statement")
     run.assume("T1 produced no deltas (query text = user text); agent_id is always present on the context")
@@ -770,6 +881,7 @@ def run(run: Run) -> None:
 
 def replay(case):
     _pin_clock()
+    _quiet_numpy()
     eps = case["episodes"]
     s = s_from_json(case["setting"])
     memo = {}
@@ -783,7 +895,7 @@ def replay(case):
     res = check(eps, case["query"], s, getres)
     if not res and case.get("variants"):
         plain = getres(s)
-        for variant in ("parallel", "warm-cache"):
+        for variant in (ALL_VARIANTS if case["variants"] is True else tuple(case["variants"])):
             if variant == "parallel" and len(eps) < 2:
                 continue
             got = execute(eps, case["query"], s, variant)
